@@ -67,3 +67,7 @@ PROPS["C19"] = {
             "non-trivial = distinct inputs",
     "assumptions": ["slices start at offset 0 of their backing array", "fewer than 2^64 publications"],
 }
+
+# C14's Message.UnmarshalText route (incl. "the value must not alias the caller's buffer") is exercised by the message family
+PROPS["C14"]["families"] = ["fields", "message"]
+PROPS["C14"]["rule"] += "; plus the message family (UnmarshalText of arbitrary wire-like text into a Message whose input buffer is then overwritten)"
